@@ -100,10 +100,14 @@ emit('absFunctionCalculator', 'len(parameters) == 1', None,
 for fn, op in [('min', 'More'), ('max', 'Less')]:
     emit(fn + 'FunctionCalculator', 'len(parameters) >= 2', None,
          ['ensures[C08] err == nil ==> (exists k int :: 0 <= k && k < len(parameters) && result == parameters[k])',
+          # "an inapplicable argument yields an error - never ... a silently substituted value": a Null cannot be ordered
+          'ensures[C08] err == nil ==> (forall j int :: 0 <= j && j < len(parameters) ==> parameters[j].typ != variants.Null)',
           'callsite[C08] %s requires value1 == result && value2 == parameters[i] && 1 <= i && i < len(parameters)' % op,
           'loop 0',
           '  invariant 1 <= i && i <= paramCount && paramCount == len(parameters) && vinv(result)',
           '  invariant exists k int :: 0 <= k && k < len(parameters) && result == parameters[k]',
+          '  invariant i == 1 ==> result == parameters[0]',
+          '  invariant i >= 2 ==> (forall j int :: 0 <= j && j < i ==> parameters[j].typ != variants.Null)',
           '  decreases paramCount - i'],
          doc='"%s ... over all arguments": every argument is compared, in order, with the running result' % fn.capitalize())
 emit('sumFunctionCalculator', 'len(parameters) >= 2', None,
